@@ -230,6 +230,23 @@ class World:
             self._ref[d] = mdl
         return self._ref[d]
 
+    def ref_raw(self, d):
+        """Fresh model with deferred computation, fitted on the in-memory data and NOT computed: the oracle for
+        results that are still in unsorted ('raw') mode order."""
+        key = ("raw", d)
+        if key not in self._ref:
+            p = self.params()
+            p["compute"] = False
+            mdl = self.fam.new(**p)
+            self.fam.fit(mdl, self.ds_mem[d])
+            self._ref[key] = mdl
+        return self._ref[key]
+
+    def ref_for(self, d, order):
+        # only classes that sort their modes on compute() have a distinct unsorted order; for every other class
+        # "raw" is the one and only order
+        return self.ref_raw(d) if (order == "raw" and self.fam.caps["sorts"]) else self.ref(d)
+
     def refrot(self, d, raw=False):
         key = (d, raw)
         if key not in self._refrot:
@@ -290,10 +307,12 @@ class Replayer:
         self.rep = report
         self.facts = dict(P=0, D=0, M=0)
         self.found = []           # (prop, clause, what)
+        self.found_at = []        # action kind of the step at which each finding was made
         self.route_cycle = route_cycle
 
     def fail(self, prop, clause, what):
         self.found.append((prop, clause, what))
+        self.found_at.append(getattr(self, "cur_kind", None))
 
     def D(self, ok, prop, clause, what):
         self.facts["D"] += 1
@@ -317,6 +336,7 @@ class Replayer:
             for step, (u, a, v) in enumerate(path):
                 tgt = json.loads(v)
                 n0 = sched.n
+                self.cur_kind = a["kind"]
                 try:
                     self.step(a, tgt)
                 except _Refused as e:
@@ -326,9 +346,13 @@ class Replayer:
                 computes = sched.n > n0
                 self.after(a, tgt, computes)
                 trace.append(dict(a=a))
-                if self.found:
+                # a scheduler call the specification does not allow leaves the object's state as specified:
+                # the path goes on (otherwise a recorded finding of that kind would hide everything behind it)
+                if any(f[1] not in self.SOFT for f in self.found):
                     break
         return trace
+
+    SOFT = {"C12_LazyFitComputesNothing"}
 
     # ------------------------------------------------------------------
     def call(self, prop, clause, what, fn):
@@ -413,7 +437,7 @@ class Replayer:
             self.D(nn == 0, "C05", "C05_TransformLabelsFromArgument", f"transform({d}) result contains {nn} NaN")
         used = a.get("used", [])
         if len(used) == 1:
-            ref = w.ref(used[0])
+            ref = w.ref_for(used[0], a.get("order"))
             exp = fam.transform(ref, w.ds_mem[d])
             prop = "C04" if d == used[0] else "C14"
             self.M(same(res, exp, what="transform"), prop,
@@ -451,8 +475,8 @@ class Replayer:
             dim = w.ds[a["labelsFrom"]].dim
             self.D(_labels(s_, dim) == lab, "C05", "C05_TransformLabelsFromArgument",
                    f"scores() field {i} not labelled with the fitted data's sample coordinates")
-        if len(used) == 1 and a.get("order") != "raw":
-            ref = w.ref(used[0])
+        if len(used) == 1:
+            ref = w.ref_for(used[0], a.get("order"))
             self.M(same(sc, fam.scores(ref), what="scores"), "C14", "C14_AnswersFromLastFit",
                    f"scores() differ from a fresh model fitted on {used[0]}")
             self.M(same(co, fam.components(ref), what="components"), "C14", "C14_AnswersFromLastFit",
@@ -531,11 +555,15 @@ class Replayer:
                     self.D(pm["lazy"] == m["lazy"], "C12", "C12_ComputeMakesEager",
                            f"after {a['kind']}: results lazy={pm['lazy']} but specification says lazy={m['lazy']}")
             if "sorted" in pm:
-                self.D(pm["sorted"] == m["sorted"], "C18" if fam.caps["sorts"] else "C11", "C11_SortedExactlyOnce",
-                       f"after {a['kind']}: sorted flag {pm['sorted']} != {m['sorted']}")
+                if a["kind"] == "deserialize":
+                    self.D(pm["sorted"] == m["sorted"], "C13", "C13_SnapshotFaithful",
+                           f"after deserialize: sorted flag {pm['sorted']}, the serialised model had {m['sorted']}")
+                else:
+                    self.D(pm["sorted"] == m["sorted"], "C18" if fam.caps["sorts"] else "C11", "C11_SortedExactlyOnce",
+                           f"after {a['kind']}: sorted flag {pm['sorted']} != {m['sorted']}")
             # stored results are those of a fresh fit on edata, in the stated order
-            if m["order"] != "raw" and pm.get("namesOK", True) and m["edata"] != "none":
-                ref = w.ref(m["edata"])
+            if pm.get("namesOK", True) and m["edata"] != "none":
+                ref = w.ref_for(m["edata"], m["order"])
                 why = same(fam.scores(self.model), fam.scores(ref), what="scores")
                 prop = "C18" if (fam.caps["sorts"] and a["kind"] in ("fit", "compute")) else \
                        ("C13" if a["kind"] == "deserialize" else "C14")
